@@ -48,6 +48,8 @@ pub fn probes(_tier: &str) -> Vec<String> {
     "probe.endpoint_prefix.other",
     "probe.foreign_service_same_fragment",
     "probe.alias_service_same_did_and_fragment",
+    "fault.storage.endpoint_bit_rot",
+    "probe.damaged_endpoint_rejected",
   ]
   .iter()
   .map(|s| (*s).to_owned())
@@ -617,6 +619,42 @@ fn after_update(
             format!("after-{op}/foreign-service-with-same-fragment-modified"),
             format!("the bitmap of did:sim:otherissuer#rev0 changed (now {} members) when {sid} was updated", fb.len()),
           );
+        }
+      }
+      // a verifier's copy of the document suffers bit rot in this service's endpoint; decoding the damaged copy may
+      // fail (or not), but the intact document read right afterwards must still decode to the model
+      if ctx::chance(1, 6) && ep.len() > 8 {
+        let mut v = serde_json::to_value(core).unwrap();
+        let mut flipped = false;
+        if let Some(a) = v.get_mut("service").and_then(|s| s.as_array_mut()) {
+          for svc in a.iter_mut() {
+            if svc.get("id").and_then(|i| i.as_str()) == Some(sid) {
+              if let Some(e) = svc.get("serviceEndpoint").and_then(|e| e.as_str()) {
+                let body_at = e.len() - ep.len();
+                let mut bytes = e.as_bytes().to_vec();
+                let pos = body_at + 4 + ctx::choose(ep.len() - 4);
+                const ALPHA: &[u8] = b"ABCDEFGHIJKLMNOPQRSTUVWXYZabcdefghijklmnopqrstuvwxyz0123456789-_";
+                let mut c = ALPHA[ctx::choose(64)];
+                if c == bytes[pos] {
+                  c = if c == b'A' { b'B' } else { b'A' };
+                }
+                bytes[pos] = c;
+                svc["serviceEndpoint"] = String::from_utf8(bytes).unwrap().into();
+                flipped = true;
+              }
+            }
+          }
+        }
+        if let (true, Ok(damaged)) = (flipped, CoreDocument::from_json_value(v)) {
+          ctx::stat("fault.storage.endpoint_bit_rot");
+          match ctx::catch(|| damaged.resolve_revocation_bitmap(sid.into()).map_err(|e| e.to_string())) {
+            Ok(Err(_)) => ctx::stat("probe.damaged_endpoint_rejected"),
+            Ok(Ok(_)) => ctx::stat("observation.damaged_endpoint_decoded"),
+            Err(_) => ctx::stat("observation.damaged_endpoint_panic"),
+          }
+          let again = ctx::catch(|| core.resolve_revocation_bitmap(sid.into()).map_err(|e| e.to_string()))
+            .unwrap_or_else(|p| Err(format!("panic: {p}")));
+          check_bitmap(&format!("after-{op}/after-damaged-copy"), again, m, &qs, &ep);
         }
       }
       // other services untouched
